@@ -44,7 +44,7 @@ FEATURES: Dict[str, Dict[str, List[int]]] = {
     "not": {"bool": [5]}, "has": {"bool": [6]}, "macro_bool": {"bool": [7, 8]},
     "strfn": {"bool": [9]}, "matches": {"bool": [9]}, "in": {"bool": [10]}, "streq": {"bool": [11]},
     "concat": {"str": [0], "list": [3]}, "string_conv": {"str": [1]}, "listlit": {"list": [0]},
-    "map": {"list": [1]}, "filter": {"list": [2]},
+    "map": {"list": [1]}, "filter": {"list": [2]}, "duration": {"bool": [13]},
 }
 
 
@@ -193,7 +193,7 @@ class ExprGen:
         r = self.r
         if d <= 0 or r.random() < 0.15:
             return r.choice(["true", "false", f"{self.int_(0)} > {self.const()}"])
-        k = self._pick("bool", 13)
+        k = self._pick("bool", 14)
         if k <= 2:
             op = r.choice(["<", "<=", ">", ">=", "==", "!="])
             return f"({self.int_(d - 1)} {op} {self.int_(d - 1)})"
@@ -231,6 +231,14 @@ class ExprGen:
             return f"({self.int_(d - 1)} in {self.list_(d - 1)})"
         if k == 11:
             return f"({self.str_(d - 1)} == {self.str_(d - 1)})"
+        if k == 13:
+            # durations / timestamps: text conversions with their own parsing machinery
+            du = ["30s", "90s", "1m", "1h", "1.5s", "100ms"]
+            a = du[(r.randrange(len(du)) + self.salt) % len(du)]
+            b = du[r.randrange(len(du))]
+            if r.random() < 0.7:
+                return f'(duration("{a}") {r.choice(["<", ">", "==", "<="])} duration("{b}"))'
+            return f'(timestamp("2020-01-0{1 + self.salt % 8}T00:00:00Z") + duration("{a}") > timestamp("2020-01-02T00:00:00Z"))'
         return f"({self.bool_(d - 1)} ? {self.bool_(d - 1)} : {self.bool_(d - 1)})"
 
     def any_(self, d: int) -> str:
@@ -326,6 +334,12 @@ def gen_bindings(r: random.Random, decls: Dict[str, str], salt: int = 0,
         b.pop("a.b", None)
         b.pop("a.c.d", None)
         b["a"] = {"b": gen_value(r, "int", salt)}
+    if "p.x" in decls and r.random() < 0.15:
+        # the package itself bound to a document (the CLI's "jq" configuration): names are then
+        # found inside the mapping
+        b.pop("p.x", None)
+        b.pop("p.k.z", None)
+        b["p"] = {"x": gen_value(r, "int", salt), "k": {"z": gen_value(r, "int", salt)}}
     return b
 
 
